@@ -420,3 +420,28 @@ PROPS["C14"] = {
           role="c14_self_ping", timeout={"quick": 600}),
     ],
 }
+
+# ------------------------------------------------------------------------------------------------------------ C05
+PROPS["C05"] = {
+    "files": ["src/crypto/init.rs"],
+    "functions": ["InitState::handle_init (stage logic, Ping arm)", "InitState::every_second", "InitState::repeat_last_message"],
+    "bounds": "ONE real step of one handshake object from a symbolic state: (a) an end awaiting the pong receives the other "
+              "end's verified ping (arbitrary salted hashes); (b) one second passes in any stage with any retry counter / "
+              "linger time / last datagram",
+    "outside": "the property's quantifier: all schedules of two objects under loss, duplication, reordering, dual open to depth "
+               "10, and the liveness clause - a loss-free three-message handshake of two real objects does not complete under the "
+               "caps. The two obligations decide the role-negotiation rule and the retransmission/give-up/linger timer; they are "
+               "not composed over schedules; agreement of keys/ciphers after completion is not decided here (C06 decides the "
+               "selection function, C04 the halves)",
+    "assumptions": HS_ASSUME,
+    "obligations": [
+        K("c05_simultaneous_open_exactly_the_smaller_hash_yields", "dual open: the end whose salted hash is smaller becomes responder (core in the lower half, pong sent); the other ignores the ping",
+          timeout={"quick": 900}),
+        K("c05_every_second_pong_last", "awaiting pong: retransmit the last datagram byte-identically while < 120 retries failed, then fatal + CLOSING"),
+        K("c05_every_second_peng_last", "awaiting peng: same"),
+        K("c05_every_second_ping_nolast", "nothing sent yet: counts, sends nothing"),
+        K("c05_every_second_waiting", "initiator lingers: countdown, then CLOSING; no retransmission"),
+        K("c05_every_second_closing", "a closing object is inert"),
+        K("c04_half_decision_antisymmetric", "the comparison both ends evaluate is antisymmetric: exactly one yields"),
+    ],
+}
